@@ -293,6 +293,19 @@ func init() {
 							if inner, ok := ast.Unparen(outer.Fun).(*ast.CallExpr); ok && r.P.CalleeFunc(info, inner) == ckpt {
 								handle = prog.IdentObj(info, x.Lhs[0])
 							}
+							// an extracted helper whose result is the checkpoint's result (`return db.Checkpoint(id)()`)
+							if hf := r.P.FuncInfoOf(r.P.CalleeFunc(info, outer)); isNewHelper(r.P, hf) {
+								ast.Inspect(hf.Decl.Body, func(m ast.Node) bool {
+									if ret, ok := m.(*ast.ReturnStmt); ok && len(ret.Results) == 1 {
+										if o2, ok := ast.Unparen(ret.Results[0]).(*ast.CallExpr); ok {
+											if i2, ok := ast.Unparen(o2.Fun).(*ast.CallExpr); ok && r.P.CalleeFunc(info, i2) == ckpt {
+												handle = prog.IdentObj(info, x.Lhs[0])
+											}
+										}
+									}
+									return true
+								})
+							}
 						}
 					}
 				}
